@@ -38,6 +38,7 @@ func VerifSetup() {
 	Unmarshal([]byte(`{}`), &vaT{})
 	Unmarshal([]byte(`{}`), &vsT{})
 	Unmarshal([]byte(`{}`), &vtScalars{})
+	Unmarshal([]byte(`{}`), &vtTags{})
 }
 
 // smallInt: a symbolic integer in [-9,9] (integer formatting itself is C16's
